@@ -16,6 +16,7 @@ CONSTANTS MaxOps, EnforceNew, Variant, StartWithMain,
 
 MCNames == {"n", "n2", "o"}
 MCDirs == <<"d1", "d2", "d3">>                 \* d3 is configured but never exists
+MCDirsAbsentFirst == <<"d3", "d1", "d2">>       \* the directory that never exists is configured first
 MCDirsDup == <<"d1", "d2", "d1", "d3">>        \* the same directory configured twice: it is applied again at its second place
 MCLoadable == [d \in {"d1", "d2", "d3"} |-> CASE d = "d1" -> <<"d1/a", "d1/b">> [] d = "d2" -> <<"d2/a">> [] OTHER -> <<>>]
 MCIgnored == [d \in {"d1", "d2", "d3"} |-> IF d = "d1" THEN {"d1/.hidden", "d1/sub"} ELSE {}]
